@@ -10,11 +10,11 @@ import (
 func init() {
 	register(&Property{
 		ID: "C02",
-		Explanation: "Decides three structural necessary conditions of 'bundling preserves module-graph semantics', not the semantics: R1 every interop/runtime helper the linker, bundler, graph and printer refer to by name (__commonJS, __esm, __toESM, __toCommonJS, __export, __reExport, __copyProps, __require, __glob, __toBinary*, ...) is exported by the embedded runtime text in every feature configuration; R2 a module identity is parsed at most once per scan: the `go parseFile` spawn is dominated by the not-found edge of the visited-map lookup, and the visited entry and the pending counter are updated on every path from that edge to the spawn; R3 every config.Loader constant is dispatched by parseFile's loader switch (none falls through to 'do not know how to load'). NOT covered: link-time import/export matching, wrapper and ordering semantics, the JS bodies of the helpers.",
+		Explanation: "Decides four structural necessary conditions of 'bundling preserves module-graph semantics', not the semantics: R4 every graph search that answers a provisional constant for nodes already in its visited set (the export-star dynamic-fallback search) receives a visited set created for that one traversal root; R1 every interop/runtime helper the linker, bundler, graph and printer refer to by name (__commonJS, __esm, __toESM, __toCommonJS, __export, __reExport, __copyProps, __require, __glob, __toBinary*, ...) is exported by the embedded runtime text in every feature configuration; R2 a module identity is parsed at most once per scan: the `go parseFile` spawn is dominated by the not-found edge of the visited-map lookup, and the visited entry and the pending counter are updated on every path from that edge to the spawn; R3 every config.Loader constant is dispatched by parseFile's loader switch (none falls through to 'do not know how to load'). NOT covered: link-time import/export matching, wrapper and ordering semantics, the JS bodies of the helpers.",
 		Run: func(p *Prog, tier string) []*RuleResult {
 			return []*RuleResult{
 				runtimeNamesRule(p, "C02/R1 runtime-names", map[string]bool{"linker": true, "bundler": true, "graph": true, "js_printer": true}, 10),
-				c02LoadOnce(p), c02LoaderDispatch(p),
+				c02LoadOnce(p), c02LoaderDispatch(p), c02CycleCut(p),
 			}
 		},
 	})
@@ -25,6 +25,26 @@ func init() {
 			return []*RuleResult{runtimeNamesRule(p, "C05/R1 runtime-names", map[string]bool{"js_parser": true}, 40)}
 		},
 	})
+}
+
+// c02CycleCut: graph searches in the linker/bundler that cut cycles with a provisional constant
+// get a visited set that lives for exactly one traversal (engine: cyclecut.go).
+func c02CycleCut(p *Prog) *RuleResult {
+	r := NewRule("C02/R4 cycle-cut-scope", "a graph search that answers a constant for nodes already in its visited set (the cycle cut) is given a visited set created for that one traversal, never one that survives from one root to the next")
+	cuts := findCutFuncs(p)
+	found := false
+	for _, cf := range cuts {
+		r.Note("provisional-answer search: " + FuncName(cf.fn) + " (cut answer " + cf.cutConst + ")")
+		if FuncName(cf.fn) == "linker.(*linkerContext).hasDynamicExportsDueToExportStar" {
+			found = true
+		}
+	}
+	if !r.Anchor("linker.(*linkerContext).hasDynamicExportsDueToExportStar is a provisional-answer search", found) {
+		return r
+	}
+	checkCutScopes(p, r, cuts)
+	r.Floor(1)
+	return r
 }
 
 func c02LoadOnce(p *Prog) *RuleResult {
